@@ -62,6 +62,13 @@ def run(ctx):
         [{"name": "s", "help": "", "type": "SUMMARY", "metrics": [{"labels": [], "summary": {"count": 0, "sum": F(0.0), "q": []}}]}],
         [{"name": "h0", "help": "x", "type": "HISTOGRAM", "metrics": [{"labels": [], "hist": {"count": 0, "sum": F(-0.0), "b": []}}]}],
     ]
+    # one Metric on which a hand-written collector calls SEVERAL value setters, in every order, exposed under each family type
+    import itertools as _it
+    vals = {"counter": F(17.0), "gauge": F(4.0), "hist": {"count": 2, "sum": F(3.0), "b": [[F(1.0), 1]]}, "summary": {"count": 1, "sum": F(2.0), "q": [[F(0.5), F(2.0)]]}}
+    for kinds in (("gauge", "counter"), ("counter", "hist"), ("gauge", "summary"), ("counter", "gauge", "hist")):
+        for order in _it.permutations(kinds):
+            for t in {"counter": ["COUNTER"], "gauge": ["GAUGE"], "hist": ["HISTOGRAM"], "summary": ["SUMMARY"]}[order[0]] + ["COUNTER" if "counter" in kinds else "GAUGE"]:
+                special.append([{"name": "multi", "help": "h", "type": t, "metrics": [dict({"labels": [["l", "v"]], "order": list(order)}, **{k: vals[k] for k in kinds})]}])
     for lit in special:
         descs = [{"fq_name": f["name"], "help": f.get("help") or "h", "const": [], "var": []} for f in lit]
         calls = [{"op": "registry", "as": "r"}, {"op": "custom", "as": "cc", "descs": descs, "families": lit}, {"op": "register", "reg": "r", "obj": "cc"},
